@@ -148,7 +148,30 @@ public:
   json::Value J(const Expr *E, bool TryConst = true) {
     if (!E)
       return nullptr;
+    // the explicit (written) casts wrapped around the expression, outermost first
+    json::Array XC;
+    {
+      const Expr *W = E;
+      while (true) {
+        if (const auto *P = dyn_cast<ParenExpr>(W)) {
+          W = P->getSubExpr();
+        } else if (const auto *C = dyn_cast<CStyleCastExpr>(W)) {
+          XC.push_back(typeStr(C->getTypeAsWritten()));
+          W = C->getSubExpr();
+        } else if (const auto *I = dyn_cast<ImplicitCastExpr>(W)) {
+          W = I->getSubExpr();
+        } else
+          break;
+      }
+    }
     E = E->IgnoreParenCasts();
+    if (!XC.empty()) {
+      json::Value V = J(E, TryConst);
+      if (auto *Obj = V.getAsObject())
+        if (!Obj->get("xc"))
+          (*Obj)["xc"] = std::move(XC);
+      return V;
+    }
     json::Object O;
     QualType T = E->getType();
 
